@@ -1435,6 +1435,24 @@ theorem visH_cleanup_sub (g : Graph) (hid : List Nat) (n : Nat) (p : Nat × List
   rw [hn] at h
   exact hcl p h
 
+/-! ### what the clean decision reads besides the edges is the same on the visible graph -/
+
+theorem SameNodes.shape {gv g : Graph} (h : SameNodes gv g) (n : Nat) : (gv.node n).shape = (g.node n).shape := by
+  have := congrArg Node.shape (h.node n); exact this
+
+theorem copies_sameNodes {gv g : Graph} (h : SameNodes gv g) (n : Nat) : gv.copies n = g.copies n := by
+  unfold Graph.copies Graph.classNodes
+  simp only [h.flat, h.cls, h.len]
+
+theorem involved_sameNodes {gv g : Graph} (h : SameNodes gv g) (s : State) (n : Nat) : involved gv s n = involved g s n := by
+  unfold involved
+  simp only [h.cls, h.workers]
+
+theorem isFinished_sameNodes {gv g : Graph} (h : SameNodes gv g) (s : State) (n w : Nat) (thr : Int) :
+    isFinished gv s n w thr = isFinished g s n w thr := by
+  unfold isFinished scopeCount sharedFinished
+  simp only [h.flat, h.shape, copies_sameNodes h, involved_sameNodes h, h.worker]
+
 /-! ## a small instance for the non-vacuity examples of `Props/C01.lean`, `Props/C05.lean`
 
 Two workers; per worker a stateless test `a` (nodes 0, 1) and a dependant `b` (nodes 2, 3) that sets the removable state
